@@ -175,7 +175,12 @@ def run(ctx):
                ('corpus', '(set-logic ALL)\n(declare-const x Int)\n(declare-const y Int)\n(assert (let ((x (+ y 1))) (> x 0)))\n(check-sat)\n'),
                ('corpus', '(set-logic ALL)\n(declare-const a Int)\n(declare-const |a| Int)\n(assert (> |a| 0))\n(check-sat)\n'),
                ('corpus', '(set-logic ALL)\n(declare-const f (_ FloatingPoint 5 11))\n(assert (fp.isNaN (fp (_ bv0 1) (_ bv0 5) (_ bv0 10))))\n(check-sat)\n'),
-               ('corpus', '(set-logic ALL)\n(declare-const x Int)\n(declare-const y Int)\n(assert (= x (+ y 1)))\n(check-sat)\n')]
+               ('corpus', '(set-logic ALL)\n(declare-const x Int)\n(declare-const y Int)\n(assert (= x (+ y 1)))\n(check-sat)\n'),
+               # a definition that is not recursive itself but refers to one that is (the recursion check must not loop on it);
+               # a parameter named like its function
+               ('corpus', '(set-logic ALL)\n(declare-const y Int)\n(define-fun g () Int (+ g 1))\n(define-fun f () Int (+ g 2))\n(assert (> (+ f y) 0))\n(check-sat)\n'),
+               ('corpus', '(set-logic ALL)\n(declare-const y Int)\n(define-fun a ((a Int)) Int (+ a 1))\n(define-fun f ((x Int)) Int (* 2 (a x)))\n(assert (> (f y) 0))\n(check-sat)\n'),
+               ('corpus', '(set-logic ALL)\n(define-fun h1 () Int h2)\n(define-fun h2 () Int h3)\n(define-fun h3 () Int h2)\n(define-fun k () Int (+ h1 h1 h1))\n(assert (> k 0))\n(check-sat)\n')]
     budget = 24 if ctx.thorough else 12
     tot = dict(proposals=0, explored=0)
     for cls, text in inputs:
